@@ -652,6 +652,27 @@ def thread_jumps(body, adts, max_rounds=6, max_new=400):
             # straight-line blocks are duplicated for this path too, until nothing further on mentions the carried locals
             cur_, ext, seen_ = tgt, [], set()
             still = mentioned(cur_, locs)
+            # dry run: only worth it when a few straight-line blocks (no calls but the error conversion of `?`) get rid of every mention
+            probe, steps_, ok_ = tgt, 0, False
+            pseen = set()
+            while steps_ < 8:
+                if not mentioned(probe, locs):
+                    ok_ = True
+                    break
+                pt = blocks[probe]['t']
+                if probe in pseen or pt.get('k') not in ('goto', 'falseedge', 'drop', 'call') or not isinstance(pt.get('t'), int):
+                    break
+                if pt.get('k') == 'call' and not str((pt.get('f') or {}).get('fn', '')).endswith('FromResidual::from_residual'):
+                    break
+                pseen.add(probe)
+                probe = pt['t']
+                steps_ += 1
+            if not ok_:
+                still = set(still)
+                locs = set(l_ for l_ in locs if l_ not in still)
+                if not locs:
+                    continue
+                still = set()
             while still and len(ext) < 8 and added <= max_new:
                 tb = blocks[cur_]
                 tt = tb['t']
